@@ -94,6 +94,7 @@ void World::opCardinality(const Step &s)
     EdgeSlot &A = *edges[ca[s.a[0] % ca.size()]];
     ForRT &F = forests[A.forest];
     const long expect = A.tab.countNonDefault(defaultOf(F.kind()));
+    desc << "CARDINALITY(" << en(A) << ") expect " << expect;
     long cl = -1; double cd = -1; long cz = -1;
     try {
         apply(CARDINALITY, *A.e, cl);
@@ -238,6 +239,7 @@ void World::opIterate(const Step &s)
     SymMask sm;
     const bool useMask = s.a[1] & 1;
     if (useMask) genMask(R, D, F.spec.rel, sm);
+    desc << "iterate " << en(A) << " in " << fn(A.forest) << (useMask ? " masked" : "");
     std::vector<IterSlot::Item> want;
     expectedVisits(F, D, A.tab, useMask ? &sm : nullptr, want);
     minterm* mask = useMask ? maskToMinterm(F, sm) : nullptr;
@@ -390,8 +392,8 @@ void World::opUnary(const Step &s)
     std::vector<size_t> ca = edgesWhere([&](const EdgeSlot &e) {
         if (e.forest < 0 || !forests[e.forest].alive) return false;
         FKind k = forests[e.forest].kind();
-        // KF-C05-1: DIST_INC on identity-reduced relations (probe plan only)
-        if (which == 0 && forests[e.forest].spec.rel && forests[e.forest].spec.red == 2 && s.a[5] != 999) return false;
+        // KF-C05-1: DIST_INC on relation forests (probe plans only)
+        if (which == 0 && forests[e.forest].spec.rel && s.a[5] != 999) return false;
         if (which == 0) return k == FK_MTI || k == FK_EVP;
         return k == FK_MTI || k == FK_MTR || k == FK_EVP;
     });
@@ -410,6 +412,8 @@ void World::opUnary(const Step &s)
     if (ri < 0 || !sameOrder(A.forest, ri)) { note(OC_SKIP); return; }
     ForRT &FR = forests[ri];
     EdgeSlot* res = newEdge(s.client, ri);
+    { static const char* un[] = { "DIST_INC", "user:abs", "user:2x+1", "user:isOdd" };
+      desc << en(*res) << " = " << un[which] << "(" << en(A) << ") in " << fn(ri); }
     res->tab = A.tab;
     res->oracle = A.oracle;
     for (Val &x : res->tab.v) {
@@ -460,6 +464,7 @@ void World::opRange(const Step &s)
     EdgeSlot &A = *edges[ca[s.a[1] % ca.size()]];
     ForRT &F = forests[A.forest];
     const bool mx = (s.a[0] & 1);
+    desc << (mx ? "MAX_RANGE(" : "MIN_RANGE(") << en(A) << ")";
     Val best = A.tab.v[0];
     for (const Val &x : A.tab.v) {
         if (mx ? (x.num() > best.num()) : (x.num() < best.num())) best = x;
@@ -519,6 +524,7 @@ void World::opCross(const Step &s)
     if (ri < 0 || !sameOrder(A.forest, B.forest) || !sameOrder(A.forest, ri)) { note(OC_SKIP); return; }
     const Dom &D = doms[FA.spec.dom].m;
     EdgeSlot* res = newEdge(s.client, ri);
+    desc << en(*res) << " = CROSS(" << en(A) << ", " << en(B) << ") in " << fn(ri);
     res->oracle = A.oracle && B.oracle;
     res->tab = Table::constant(D, true, Val::b(false));
     for (long x = 0; x < D.N; x++) for (long y = 0; y < D.N; y++)
@@ -572,6 +578,7 @@ void World::opImage(const Step &s)
     if (FA.kind() == FK_MTI && FR.spec.red != 0) { note(OC_SKIP); return; }
     const Dom &D = doms[FA.spec.dom].m;
     EdgeSlot* res = newEdge(s.client, ri);
+    desc << en(*res) << " = " << (fwd ? "POST_IMAGE(" : "PRE_IMAGE(") << en(A) << ", " << en(Rl) << " in " << fn(Rl.forest) << ") into " << fn(ri);
     res->oracle = A.oracle && Rl.oracle;
     const FKind k = FA.kind();
     Val unreach = (k == FK_MTB) ? Val::b(false) : (k == FK_EVP ? Val::pinf(Val::I) : Val::n(-1));
@@ -661,6 +668,7 @@ void World::opVMMult(const Step &s)
     if (ri < 0 || !sameOrder(A.forest, M.forest) || !sameOrder(A.forest, ri)) { note(OC_SKIP); return; }
     const Dom &D = doms[FA.spec.dom].m;
     EdgeSlot* res = newEdge(s.client, ri);
+    desc << en(*res) << " = " << (vm ? "VM_MULTIPLY(" : "MV_MULTIPLY(") << en(A) << ", " << en(M) << ") into " << fn(ri);
     res->oracle = A.oracle && M.oracle;
     const bool real = FA.kind() == FK_MTR;
     res->tab = Table::constant(D, false, real ? Val::r(0.0) : Val::n(0));
@@ -749,6 +757,7 @@ void World::opReach(const Step &s)
     Table want;
     closure(A.tab, Rl.tab, fwd, D.N, want);
     unsigned algs = 1 + s.a[0] % 7;     // bit0 FS, bit1 NOFS, bit2 SATUR
+    desc << "reach " << (fwd ? "fwd" : "bwd") << " algs=" << algs << " init " << en(A) << " rel " << en(Rl) << " in " << fn(Rl.forest) << " result " << fn(ri);
     dd_edge ac(*A.e), rc(*Rl.e);
     EdgeSlot* res = nullptr;
     for (unsigned al = 0; al < 3; al++) {
@@ -815,7 +824,10 @@ void World::opSatPart(const Step &s)
         return F.spec.dom == FA.spec.dom && F.spec.rel && F.kind() == FK_MTB
             && (F.spec.red == 2 || F.spec.red == 1);
     });
-    int ri = pickForest(s.a[3], [&](const ForRT &F) {
+    // the operation accepts input forest == output forest only ("for now,
+    // anyway, inset and outset must be same forest", sat_pregen.cc); one call
+    // in four asks for another forest and expects to be declined
+    int ri = (s.a[3] % 4) ? A.forest : pickForest(s.a[3] / 4, [&](const ForRT &F) {
         return F.spec.dom == FA.spec.dom && !F.spec.rel && F.kind() == FK_MTB;
     });
     if (rfi < 0 || ri < 0 || !sameOrder(A.forest, rfi) || !sameOrder(A.forest, ri)) { note(OC_SKIP); return; }
@@ -824,6 +836,7 @@ void World::opSatPart(const Step &s)
     Rng R(s.seed);
     const unsigned nev = 1 + s.a[0] % 5;
     const unsigned mode = s.a[4] % 6;
+    desc << "partitioned saturation, " << nev << " events, mode " << mode << ", init " << en(A) << ", events in " << fn(rfi) << ", result " << fn(ri);
     // events: each touches a random subset of variables (others unchanged)
     Table U = Table::constant(D, true, Val::b(false));
     std::vector<dd_edge> evs;
@@ -865,23 +878,46 @@ void World::opSatPart(const Step &s)
     EdgeSlot* res = newEdge(s.client, ri);
     res->tab = want;
     pregen_relation* pr = nullptr;
+    saturation_operation* sat = nullptr;
     try {
         if (mode == 0) pr = new pregen_relation(FX.f, nev);
         else           pr = new pregen_relation(FX.f);
         for (dd_edge &e : evs) pr->addToRelation(e);
         if (mode == 0) pr->finalize();
         else pr->finalize(pregen_relation::splittingOption(mode - 1));
-        saturation_operation* sat = SATURATION_FORWARD(FA.f, pr, forests[ri].f);
+    }
+    catch (MEDDLY::error &e) {
+        markErrored(rfi);
+        dropEdge(edges.size() - 1);
+        delete pr;
+        failNow("O2", cur_family, std::string("building the partitioned relation threw ") + e.getName());
+        return;
+    }
+    // construction of the operation is where unsupported forest
+    // combinations are declined
+    try {
+        sat = SATURATION_FORWARD(FA.f, pr, forests[ri].f);
         if (!sat) throw error(error::NOT_IMPLEMENTED, __FILE__, __LINE__);
+    }
+    catch (MEDDLY::error &e) {
+        dropEdge(edges.size() - 1);
+        delete pr;
+        const error::code c = e.getCode();
+        if (c == error::TYPE_MISMATCH || c == error::NOT_IMPLEMENTED
+            || (c == error::FOREST_MISMATCH && ri != A.forest)) {
+            stats.opcount["satpart:declined"]++;
+            note(OC_DECLINED, uint64_t(c)); return;
+        }
+        failNow("O2", cur_family, std::string("SATURATION_FORWARD could not be built: ") + e.getName());
+        return;
+    }
+    try {
         sat->compute(*A.e, *res->e);
         // the operation owns the relation from here on
     }
     catch (MEDDLY::error &e) {
         markErrored(A.forest); markErrored(rfi); markErrored(ri);
         dropEdge(edges.size() - 1);
-        if (e.getCode() == error::TYPE_MISMATCH || e.getCode() == error::NOT_IMPLEMENTED) {
-            note(OC_DECLINED, uint64_t(e.getCode())); return;
-        }
         failNow("O2", cur_family, std::string("partitioned saturation threw ") + e.getName());
         return;
     }
@@ -917,6 +953,8 @@ void World::opReorder(const Step &s)
     cur_family = "reorder";
     int fi = pickForest(s.a[0], [&](const ForRT &F) {
         FKind k = F.kind();
+        // KF-C13-1: reordering an identity-reduced relation forest (probe plans only)
+        if (F.spec.rel && F.spec.red == 2 && s.a[5] != 999) return false;
         if (F.spec.rel) return k == FK_MTB || k == FK_MTI || k == FK_MTR;
         return k == FK_MTB || k == FK_MTI || k == FK_MTR || k == FK_EVP;
     });
@@ -927,6 +965,8 @@ void World::opReorder(const Step &s)
     std::vector<int> l2v(size_t(n) + 1, 0);
     for (int k = 1; k <= n; k++) l2v[size_t(k)] = k;
     for (int k = n; k > 1; k--) std::swap(l2v[size_t(k)], l2v[size_t(1 + R.below(k))]);
+    desc << "reorder " << fn(fi) << " heuristic " << F.spec.reorder << (F.spec.swap ? " LEVEL" : " VAR") << " target";
+    for (int k = 1; k <= n; k++) desc << " " << l2v[size_t(k)];
     // other forests over the same domain: remember their roots
     std::vector<std::pair<EdgeSlot*, dd_edge>> others;
     for (EdgeSlot* e : edges) {
@@ -1001,6 +1041,7 @@ void World::opIndexSet(const Step &s)
     for (long x = 0; x < D.N; x++) if (A.tab.v[size_t(x)].i) mem.push_back(std::make_pair(lexKey(FR, D, x, 0), x));
     std::sort(mem.begin(), mem.end());
     EdgeSlot* res = newEdge(s.client, ri);
+    desc << en(*res) << " = CONVERT_TO_INDEX_SET(" << en(A) << ", " << mem.size() << " members) in " << fn(ri) << ", lookups -1.." << mem.size();
     res->tab = Table::constant(D, false, Val::pinf(Val::I));
     for (size_t i = 0; i < mem.size(); i++) res->tab.v[size_t(mem[i].second)] = Val::n(long(i));
     try {
